@@ -104,6 +104,7 @@ fu('wait_for_two', ['SET(42)', 'WAITFOR(1)', 'WAITFOR(2)'], final=FIN_READY, pro
 fu('timeout0_two', ['SET(42); WAITFOR0(0); vf_check(ret[0] == 1, 7)', 'WAITFOR0(1)', 'WAITFOR0(2)'], props={'assert': 'C08'}, opts=TOPT, models=['sc'], tiers=('thorough',))
 fu('wait_for_unset', ['WAITFOR(0)'], props={'assert': 'C08'}, opts=dict(TOPT, spurious='1'), extra=[TO])
 S('fu_latch', 'future/latch.cpp', FUP)
+S('fu_latch_seq_counts', 'future/latch_seq.cpp', {'assert': 'C08'}, models=['sc'], bound=8)
 
 # ----------------------------------------------------------------------------------------------- C14: id allocator / deposit box
 def ida(name, ts, extra=(), **kw):
@@ -404,7 +405,7 @@ LEVEL_TEXT = {
  'C04': 'Real ConcurrentVector<E,0> (block size 1-2) grown by 2 threads: same index => same address, constructed value visible, ctor/dtor balance after destruction, snapshot reader vs grower, gc() vs grower with symbolic clock; RetireList driven directly with a symbolic clock (1024 s windows at 0 and across the 16-bit timestamp wrap): nothing freed < 64 s after retirement.',
  'C05': 'Real anyflow sources (builder, graph, vertex, data, dependency, closure, executor .cpp + headers) with the graph built by the real GraphBuilder during set-up. (a) Sequential whole-pipeline scenarios on the inplace executor: a chain, and a fan-out/fan-in graph with on/unless conditional dependencies, an essential dependency, an unneeded vertex, symbolic inputs / condition / requested-target set, run twice with reset() in between; oracle = a reference demand-driven evaluation (target values, which vertices ran, once, after their dependencies, closure finished rc 0). (b) Concurrent unit scenarios of the dependency counter protocol: graph->run() (activation) on one thread racing with the external publication of the condition and of the target data on two other threads through the real emit()/release() path, for on/unless, condition true/false, one or two dependencies on the same data; the harness executor only records vertex invocations; oracle = exactly one invocation of the dependent vertex, after the condition was evaluated and (if it holds) the target was ready, producers activated at most once / never when not needed. Thread-pool executor, channels, mutable dependencies and >3 threads are outside the scenarios (stated).',
  'C06': 'Sequential mode on the real memory_resource.cpp: concrete prefix up to a page-array boundary, then 2 symbolic (size from an 8-entry boundary table, alignment 1..512) requests with optional destructor registration; oracle: aligned, owned, disjoint, canaries intact, release() returns each page / oversize block once with its size+alignment, destructors once in reverse order, accounting zero, reusable. Shared/swiss variants outside.',
- 'C08': 'Real FutureContext<two-word value, VS> / CountDownLatch: set_value vs on_finish (before/after/concurrent) vs get / wait_for(symbolic timeout incl. negative and the 2^16 largest values, symbolic monotone ns clock < 2^16); callbacks once with the value, get returns it, wait_for true => ready, false => time elapsed; STUCK query for get.',
+ 'C08': 'Real FutureContext<two-word value, VS> / CountDownLatch: set_value vs on_finish (before/after/concurrent) vs get / wait_for(symbolic timeout incl. negative and the 2^16 largest values, symbolic monotone ns clock < 2^16); callbacks once with the value, get returns it, wait_for true => ready, false => time elapsed; STUCK query for get. Sequential: CountDownLatch with a symbolic initial count 0..4 counted down in two symbolic steps (count_down(k), k > 1 included): ready exactly when the count reaches zero, callbacks registered before / after run exactly once.',
  'C09': 'Real Epoch (x86-64 tick): reader regions (accessor, nested, moved between threads, second slot, released/unlocked accessor) vs unlink+tick+low_water_mark; a reader that still sees the old cell never observes it reclaimed; released/unlocked accessors do not hold the mark back. sc/tso/arm.',
  'C10': 'Sequential mode on the real keep_reclaim(): 0-2 retires, optional reader region closing at a symbolic back-off sleep, stop marker; every reclaimer exactly once, never while the region is open, before the collector returns; plus a region-enter and a retire injected during the queue intake of the collector (reclaimer move-constructor as re-entrant scheduling hook; plain and wrapped two-part intake): that object is never reclaimed while the region is open. Batch retirement with explicit older epochs (retire(r, epoch)) mixed with ordinary retires, so that one intake batch is not ascending, with a region opened at a symbolic point: exactly once, never early. A concurrent collector thread is outside: the three scenarios built for it do not finish within 25 minutes and are not registered.',
  'C13': 'Real coroutine futex.cpp + DepositBox with hand-made coroutine frames (real await_suspend, resume through the bound executor): wake_one / wake_all / cancel / new waiter races for 2 waiters; each suspension resumed exactly once on its executor, wake_one resumes a non-cancelled waiter if one exists, non-matching value does not suspend. Real C++20 coroutines (clang -O1 coroutine lowering is part of the IR): a Task on a harness executor co_awaits Cancellable<Task> whose inner task awaits a Future (set_value / cancellation token / double cancel in a symbolic sequential order), a Future, and a Task awaiting a Future: resumed exactly once on its executor, value iff cancellation lost, the loser reports false, the deposit-box slot is given back. The bookkeeping behind Cancellable (real BasicCancellable + DepositBox, hand-made frames): cancel || finish, cancel || cancel of one wait, and the winner of wait A racing the start of wait B on another thread (slot recycling): each awaiter resumed exactly once by its own trigger, exactly one trigger wins. Two OS threads on real coroutine frames are built but not registered (dev tier, not finishing).',
